@@ -396,23 +396,42 @@ Lemma get_of_list2 d (a b : T) : get d (of_list [a; b]) [0] = a /\ get d (of_lis
 Proof. split; reflexivity. Qed.
 
 (* invariant of the auxiliary vectors *)
-Definition InvS (s : St2) : Prop := vec2 (s_pcur s) /\ length (dat (s_delta s)) = 2%nat.
+Definition InvS (hg : bool) (s : St2) : Prop :=
+  vec2 (s_pcur s) /\ length (dat (s_delta s)) = 2%nat /\
+  (hg = true -> vec2 (s_lower s) /\ vec2 (s_upper s)).
 
 (* the stored point is the result of the two clamps *)
 Definition clamped (z x p : arr T) : Prop :=
   (exists a, get (nofZ 0) p [0] = clamp z a) /\ (exists b, get (nofZ 0) p [1] = clamp x b).
 
+(* grid magnetism: component ix is kept or snapped to the lower / upper cell boundary *)
+Definition magnet_of (lo up p p' : arr T) (ix : Z) : Prop :=
+  get (nofZ 0) p' [ix] = get (nofZ 0) p [ix] \/
+  get (nofZ 0) p' [ix] = get (nofZ 0) lo [ix] \/ get (nofZ 0) p' [ix] = get (nofZ 0) up [ix].
+(* cell boundaries recomputed from a coordinate q on an axis *)
+Definition cell (ax : arr T) (q lo_v up_v : T) : Prop :=
+  let i := searchsorted_right ax q - 1 in
+  lo_v = (if neqb q (get (nofZ 0) ax [i]) then get (nofZ 0) ax [Z.max (i - 1) 0] else get (nofZ 0) ax [i]) /\
+  up_v = get (nofZ 0) ax [Z.min (i + 1) (dim ax 0%nat - 1)].
+Definition cells (z x : arr T) (p lo up : arr T) : Prop :=
+  cell z (get (nofZ 0) p [0]) (get (nofZ 0) lo [0]) (get (nofZ 0) up [0]) /\
+  cell x (get (nofZ 0) p [1]) (get (nofZ 0) lo [1]) (get (nofZ 0) up [1]).
+
 (* one execution of the loop body: a plain break, a stored vertex, or a free step *)
 Definition step_spec (hg : bool) (max_step nfmax : Z) (z x : arr T) (s : St2) (r : ctl St2) : Prop :=
   r = Brk s \/
   (s_count s < max_step /\ s_nfree s <= nfmax /\
-   exists s', InvS s' /\
+   exists s', InvS hg s' /\
      ((hg = false /\ r = Next s' /\ s_count s' = s_count s + 1 /\ s_nfree s' = s_nfree s /\
        s_ray s' = set_sub (s_ray s) [s_count s] (s_pcur s') /\ clamped z x (s_pcur s')) \/
       (hg = true /\ (r = Next s' \/ r = Brk s') /\ s_count s' = s_count s + 1 /\ s_nfree s' = 0 /\
-       s_ray s' = set_sub (s_ray s) [s_count s] (s_pcur s')) \/
+       s_ray s' = set_sub (s_ray s) [s_count s] (s_pcur s') /\
+       (exists p, vec2 p /\ clamped z x p /\
+                  magnet_of (s_lower s) (s_upper s) p (s_pcur s') 0 /\
+                  magnet_of (s_lower s) (s_upper s) p (s_pcur s') 1) /\
+       cells z x (s_pcur s') (s_lower s') (s_upper s')) \/
       (hg = true /\ r = Next s' /\ s_count s' = s_count s /\ s_nfree s' = s_nfree s + 1 /\
-       s_ray s' = s_ray s))).
+       s_ray s' = s_ray s /\ s_lower s' = s_lower s /\ s_upper s' = s_upper s))).
 
 (* what the function returns after the loop *)
 Definition fin2 (zsrc xsrc : T) (max_step nfmax : Z) (s : St2) : res (arr T * Z) :=
@@ -472,8 +491,8 @@ Definition core_char_stmt : Prop :=
        u_ray2d_core_v fuel z x zgrad xgrad zend xend zsrc xsrc stepsize max_step hg =
        rbind (while_fuel fuel cond body s0) (fin2 zsrc xsrc max_step (nfree_max2 z x stepsize))) /\
     (s_count s0 = 1 /\ s_nfree s0 = 0 /\ s_pcur s0 = of_list [zend; xend] /\
-     s_ray s0 = set_sub (full [max_step; 2] (nofZ 0)) [0] (of_list [zend; xend]) /\ InvS s0) /\
-    (forall s, InvS s -> step_spec hg max_step (nfree_max2 z x stepsize) z x s (body s)).
+     s_ray s0 = set_sub (full [max_step; 2] (nofZ 0)) [0] (of_list [zend; xend]) /\ InvS hg s0) /\
+    (forall s, InvS hg s -> step_spec hg max_step (nfree_max2 z x stepsize) z x s (body s)).
 
 (* NB: `unfold` zeta-normalises, which would expand every let of the loop body; the walk below
    only uses `cbv beta delta [...]`, `change`, `intro` and `destruct`. *)
@@ -518,7 +537,7 @@ End Char.
 
 (* ---------- consequences of step_spec ---------- *)
 Definition progress (hg : bool) (max_step nfmax : Z) (z x : arr T) (s s' : St2) : Prop :=
-  s_count s < max_step /\ s_nfree s <= nfmax /\ InvS s' /\
+  s_count s < max_step /\ s_nfree s <= nfmax /\ InvS hg s' /\
   ((hg = false /\ s_count s' = s_count s + 1 /\ s_nfree s' = s_nfree s /\
     s_ray s' = set_sub (s_ray s) [s_count s] (s_pcur s') /\ clamped z x (s_pcur s')) \/
    (hg = true /\ s_count s' = s_count s + 1 /\ s_nfree s' = 0 /\
@@ -550,14 +569,14 @@ Qed.
 Section Loop.
 Variables (hg : bool) (max_step nfmax : Z) (z x : arr T).
 Variables (cond : St2 -> bool) (body : St2 -> ctl St2).
-Hypothesis Hstep : forall s, InvS s -> step_spec hg max_step nfmax z x s (body s).
+Hypothesis Hstep : forall s, InvS hg s -> step_spec hg max_step nfmax z x s (body s).
 
 Lemma loop_inv (P : St2 -> Prop) :
-  (forall s s', P s -> InvS s -> progress hg max_step nfmax z x s s' -> P s') ->
-  forall fuel s0 s1, InvS s0 -> P s0 -> while_fuel fuel cond body s0 = Ok s1 -> InvS s1 /\ P s1.
+  (forall s s', P s -> InvS hg s -> progress hg max_step nfmax z x s s' -> P s') ->
+  forall fuel s0 s1, InvS hg s0 -> P s0 -> while_fuel fuel cond body s0 = Ok s1 -> InvS hg s1 /\ P s1.
 Proof.
   intros HP fuel s0 s1 Hi0 H0 Hw.
-  apply (while_fuel_inv cond body (fun s => InvS s /\ P s) (fun s => InvS s /\ P s)) with (4 := conj Hi0 H0) (5 := Hw).
+  apply (while_fuel_inv cond body (fun s => InvS hg s /\ P s) (fun s => InvS hg s /\ P s)) with (4 := conj Hi0 H0) (5 := Hw).
   - intros s s' [Hi Hp] _ Eb. pose proof (Hstep s Hi) as Hs. rewrite Eb in Hs.
     apply step_spec_next in Hs. split; [apply Hs|]. eapply HP; eauto.
   - intros s s' [Hi Hp] _ Eb. pose proof (Hstep s Hi) as Hs. rewrite Eb in Hs.
@@ -565,9 +584,9 @@ Proof.
   - tauto.
 Qed.
 
-Lemma loop_no_raise fuel s0 e : InvS s0 -> while_fuel fuel cond body s0 <> Raise e.
+Lemma loop_no_raise fuel s0 e : InvS hg s0 -> while_fuel fuel cond body s0 <> Raise e.
 Proof.
-  intros Hi0. apply (while_fuel_no_raise cond body InvS); auto.
+  intros Hi0. apply (while_fuel_no_raise cond body (InvS hg)); auto.
   - intros s s' Hi _ Eb. pose proof (Hstep s Hi) as Hs. rewrite Eb in Hs.
     apply step_spec_next in Hs. apply Hs.
   - intros s e' Hi _ Eb. pose proof (Hstep s Hi) as Hs. rewrite Eb in Hs.
@@ -592,9 +611,9 @@ Proof.
     lia.
 Qed.
 
-Lemma loop_terminates fuel s0 : InvS s0 -> (lexm s0 < fuel)%nat -> while_fuel fuel cond body s0 <> OutOfFuel.
+Lemma loop_terminates fuel s0 : InvS hg s0 -> (lexm s0 < fuel)%nat -> while_fuel fuel cond body s0 <> OutOfFuel.
 Proof.
-  intros Hi0 Hf. apply (while_fuel_measure cond body lexm InvS); auto.
+  intros Hi0 Hf. apply (while_fuel_measure cond body lexm (InvS hg)); auto.
   intros s s' Hi _ Eb. pose proof (Hstep s Hi) as Hs. rewrite Eb in Hs.
   apply step_spec_next in Hs. split; [apply Hs|]. apply progress_lexm; auto.
 Qed.
@@ -602,9 +621,9 @@ Qed.
 (* free mode: the budget alone is a measure *)
 Definition budm (s : St2) : nat := Z.to_nat (max_step - s_count s).
 Lemma loop_terminates_free fuel s0 :
-  hg = false -> InvS s0 -> (budm s0 < fuel)%nat -> while_fuel fuel cond body s0 <> OutOfFuel.
+  hg = false -> InvS hg s0 -> (budm s0 < fuel)%nat -> while_fuel fuel cond body s0 <> OutOfFuel.
 Proof.
-  intros Ehg Hi0 Hf. apply (while_fuel_measure cond body budm InvS); auto.
+  intros Ehg Hi0 Hf. apply (while_fuel_measure cond body budm (InvS hg)); auto.
   intros s s' Hi _ Eb. pose proof (Hstep s Hi) as Hs. rewrite Eb in Hs.
   apply step_spec_next in Hs. split; [apply Hs|].
   destruct Hs as (H1 & H2 & _ & [(A & B & C & _)|[(A & _)|(A & _)]]); try congruence.
